@@ -7,6 +7,7 @@ T={
  "C02":("exploration","runtime monitoring: complete bank balance-sheet probe before/after every tx against an expected-delta reference model"),
  "C14":("exploration","runtime monitoring: per-tx NFT state probe (all classes, tokens, owners, supplies, owner listings via the module's queries) against a reference ownership map, hostile actors"),
  "C15":("exploration","runtime monitoring: per-tx MT state probe incl. raw balance-store walk against an arbitrary-precision reference ledger, boundary/overflow amounts"),
+ "C20":("exploration","runtime monitoring of the two generated code families in one process: exhaustive registry/descriptor walk (gogoproto registry vs protobuf-go registry, every .proto under proto/irismod, every Msg signer via the application's signing context) + descriptor-driven cross-family byte round trips; thorough tier under the checkptr sanitizer"),
  "C19":("exploration","runtime monitoring: response-id uniqueness monitor, query read-back of every id (per block, periodic, final) and block-to-block raw store diff (append-only)"),
 }
 NA={}
